@@ -262,8 +262,13 @@ impl Recorder {
                 st.samples
                     .push(clip_sample(probe.sample_note.clone().unwrap_or(cj)));
             }
-        } else if st.samples.is_empty() && st.cases == 1 {
-            // keep at least one sample even if trivial; replaced by nothing later
+        } else if (!probe.extra_nontrivial.is_empty() && st.samples.len() < SAMPLE_CAP)
+            || (st.samples.is_empty() && st.cases == 1)
+        {
+            // cases that contribute non-trivial sub-cases (or, failing that, the very first
+            // case) are sampled too, so that evidence always shows what a case looks like
+            st.samples
+                .push(clip_sample(probe.sample_note.clone().unwrap_or_else(case_json)));
         }
     }
     pub fn merge(&mut self, other: Recorder) {
